@@ -159,6 +159,8 @@ def _split():
                              6: {"push": (5, 6), "change_priority": (1, 5), "remove": (1, 4)}}
                     if n in sel_q and k not in sel_q[n][op]:
                         t = THOROUGH
+                    if kind == "dq" and n in (5, 7) and op == "change_priority" and k == 0:
+                        t = QUICK
                     step(op, kind, n, "inv", "or", {op_: t}, tables=f"idk{k}", grow=grow,
                          cost=(40 if kind == "dq" else 10) * n)
     # extraction from identity tables (the sift starts at a concrete position): the sizes at
@@ -169,7 +171,7 @@ def _split():
     # possible from n = 13 on (last slot 12 under position 2, grandchildren 3, 4 under position 1 with
     # children 7..10); for pop_max only from n = 20 on (last slot 19
     # under position 4, largest grandchild under position 3 with children at 15, 16): 6 min, 9 GB.
-    for n, t in ((6, QUICK), (7, QUICK), (8, THOROUGH), (9, THOROUGH), (13, THOROUGH), (15, THOROUGH), (16, THOROUGH), (17, THOROUGH), (18, THOROUGH), (20, THOROUGH)):
+    for n, t in ((5, QUICK), (6, QUICK), (7, QUICK), (8, THOROUGH), (9, THOROUGH), (13, THOROUGH), (15, THOROUGH), (16, THOROUGH), (17, THOROUGH), (18, THOROUGH), (20, THOROUGH)):
         for op in ("pop_lo", "pop_hi", "pop_lo_if"):
             if n >= 13 and op == "pop_lo_if":
                 continue
@@ -177,6 +179,8 @@ def _split():
                 continue
             tt = t
             if (n, op) in ((13, "pop_lo"), (20, "pop_hi")):
+                tt = QUICK
+            if n == 8 and op in ("pop_lo", "pop_lo_if"):
                 tt = QUICK
             # sorted consumption is a chain of these extractions (C06)
             step(op, "dq", n, "inv", "or", {"C02": tt, "C08": tt if op == "pop_lo_if" else None,
@@ -197,6 +201,15 @@ def _split():
         for op, grow, keys in (("push", 1, (n,)), ("change_priority", 0, (0, 3, n - 1)), ("remove", 0, (0, 1, 7))):
             for k in keys:
                 step(op, "pq", n, "inv", "or", {"C01": QUICK if n == 15 else THOROUGH}, tables=f"idk{k}", grow=grow, cost=200, mem=4)
+    # every length from 3 to 8 sees an update of the ROOT in the quick tier (a candidate list of
+    # the trickle-down that is wrong for one particular length, seed C02-e: len == 4i + 5)
+    # (n = 5, 7: the position split below puts key 0 of change_priority into the quick tier)
+    step("change_priority", "dq", 8, "inv", "or", {"C02": QUICK}, tables="idk0", cost=320)
+    # push_increase / push_decrease at a min-level node that has a child (position 3 of 8) and at
+    # a max-level node (position 1)
+    for op in ("push_increase", "push_decrease"):
+        for k in (1, 3):
+            step(op, "dq", 8, "inv", "all", {"C11": QUICK}, tables=f"idk{k}", grow=1, cost=400)
     # change_priority_by shares the sift path of change_priority but not its entry point
     for n, keys in ((4, (0, 1, 3)), (6, (1, 3))):
         for k in keys:
@@ -502,7 +515,7 @@ def _bulk():
                      meta=dict(op="extend", kind=kind, n=n, m=2, hint="exact", pre="cs", group="st"),
                      covers_required=False, cost=(n + 2) * 2 * (25 if dq else 4))
         # ---- extend, rebuild strategy: receiver of 8 (identity tables), hint far above
-        for tag, keys in (("ab", [8, 9]), ("xa", [3, 8]), ("xx", [5, 5])):
+        for tag, keys in (("ab", [8, 9]), ("xa", [3, 8]), ("xx", [5, 5]), ("aa", [8, 8])):
             for hname in ("far", "max"):
                 # (min-max heap: 5 min; the pattern in which nothing is new leaves the length unchanged)
                 t = QUICK if (hname == "far" and ((not dq and tag in ("xa", "xx")) or (dq and tag == "xx"))) else THOROUGH
@@ -517,10 +530,12 @@ def _bulk():
                          kind, 10, {op_: QUICK if not dq else THOROUGH}, "STEP",
                          meta=dict(op="extend", kind=kind, n=8, m=2, keys=keys, hint=hname, strategy="rebuild", tables="identity", group="or"),
                          covers_required=False, cost=900 if dq else 200, mem=7 if dq else 5)
-            t = QUICK if (not dq and tag in ("xa", "xx")) else THOROUGH
+            t = QUICK if (not dq and tag in ("xa", "xx", "aa")) else THOROUGH
+            # (the stored item value is compared as well: with the push strategy keeping the item
+            # first inserted, C12 at small sizes, the twin carries that over to the rebuild strategy)
             inst(f"extend_{kind}_n8_m2_{tag}_twin",
                  f"bulk::extend_twin::<{ty}, 8, 2, {seq_of(keys)}>(Tables::Identity, bulk::H_NONE, bulk::H_FAR)",
-                 kind, 10, {"C07": t}, "STEP",
+                 kind, 10, {"C07": t, "C12": t if tag in ("xa", "aa") else None}, "STEP",
                  meta=dict(op="extend twice, hint none vs far", kind=kind, n=8, m=2, keys=keys, tables="identity"),
                  covers_required=False, cost=1000 if dq else 300, mem=7 if dq else 5)
         # ---- FromIterator / From<Vec>
@@ -635,6 +650,11 @@ def _misc():
                 t = QUICK if (n == m and n <= 3) or (n + m == 3) else THOROUGH
                 inst(f"eq_{kind}_n{n}_m{m}", f"misc::eq2::<{ty}, {n}, {m}>()", kind, max(n, m), {"C14": t}, "EQ",
                      meta=dict(op="==", kind=kind, n=n, m=m), covers_required=(n == m and n > 0))
+            for m2 in sorted({n, max(n - 1, 0)}):
+                if n > 3:
+                    continue
+                inst(f"clonefrom_{kind}_n{n}_m{m2}", f"misc::clone_from::<{ty}, {n}, {m2}>()", kind, n, {"C14": tq(n, 2 if not dq else 2, 3)}, "EQ",
+                     meta=dict(op="clone_from", kind=kind, n=n, destination_len=m2), covers_required=False, cost=(n + 1) * (10 if dq else 4))
             t = tq(n, 3 if not dq else 1, 4)
             inst(f"clone_{kind}_n{n}", f"misc::clone_indep::<{ty}, {n}>()", kind, n + 1, {"C14": t}, "EQ",
                  meta=dict(op="clone", kind=kind, n=n), covers_required=False, cost=(n + 1) * (40 if dq else 6))
@@ -678,6 +698,12 @@ def _serde():
                          f"serde_h::roundtrip::<{s}, {d}, {n}>({B[hint]})", dst, n, {"C15": t}, "SERDE",
                          meta=dict(op="serialize->deserialize", source=src, target=dst, n=n, size_hint=hint),
                          covers_required=False, cost=n * (20 if dst == "dq" else 5))
+    # the size from which a rebuild in the wrong order (top-down) shows
+    for src, dst, t in (("dq", "dq", QUICK), ("pq", "pq", QUICK), ("pq", "dq", THOROUGH), ("dq", "pq", THOROUGH)):
+        s_, d_ = KINDS[src]["ty"], KINDS[dst]["ty"]
+        inst(f"serde_rt_{src}_{dst}_n8_hint", f"serde_h::roundtrip::<{s_}, {d_}, 8>(true)", dst, 8, {"C15": t}, "SERDE",
+             meta=dict(op="serialize->deserialize", source=src, target=dst, n=8, size_hint=True),
+             covers_required=False, cost=600 if dst == "dq" else 150, mem=7 if dst == "dq" else 5)
     for dst in ("pq", "dq"):
         d = KINDS[dst]["ty"]
         for l, seqs in {0: [("e", [])], 1: [("a", [1])], 2: [("ab", [1, 2]), ("aa", [3, 3])],
